@@ -85,6 +85,11 @@ CLAIMED = {
     note="Trusted: Coq kernel + vm_compute with primitive 63-bit integers (PrimInt63 primitives appear under Print Assumptions); table parser in harness/c12.py; harness/shim.py (wrappers in iq_parameters order), numpy leggauss, the C compiler. core_shell_bicelle_elliptical(_belt_rough) is a recorded known finding.",
     technique="Coq computation over regenerated tables (exact BigZ arithmetic) + orientational-average oracle via shim",
     design="DESIGN.md §3 C12"),
+ "C13": dict(
+    text="PARTIAL. Coq theorems over the reals for every mesh: if at each mesh point F^2 scales as lambda^6, the volumes as lambda^3 and R_eff as lambda with unchanged weights, then I-background scales as lambda^3, <R_eff> as lambda and <V> as lambda^3; multiplying F^2 by mu^2 multiplies I-background by mu^2; plus, over the unit tables regenerated from /repo on every run, the classification of every shape:* model as inside or outside the property's quantifier by a Coq unit parser. Not carried by a theorem: homogeneity of each model's C formula and the binding of table order to C arguments. These are measured: call_kernel / call_Fq at (q, p) and (q/lambda, p scaled by lambda^exponent-of-its-declared-unit), and with all SLDs multiplied by mu, lambda, mu in (0.3, 3), for every in-scope model incl. vector-parameter models and every effective-radius mode.",
+    note="Trusted: Coq kernel; stdlib real axioms; harness/c13.py (unit-exponent table duplicated in Python for the scaling). Four unit labels were repaired in /repo; five models are recorded known findings.",
+    technique="Coq proof (homogeneity of the averaging machinery) + regenerated unit-table classification + scaling oracle",
+    design="DESIGN.md §3 C13"),
 }
 NA_REASON = "check not built yet in this session (planned, see DESIGN.md §7)"
 
